@@ -106,8 +106,15 @@ class GlobalContext:
             func.trigger_start()
         self.triggers_delay_start = set()
 
+        async def start_dm(dm: FunctionDecoratorManager) -> None:
+            try:
+                await dm.start()
+            except Exception:
+                # start() has logged it and rolled back; nobody awaits this task
+                pass
+
         for dm in self.dms_delay_start:
-            Function.hass.async_create_task(dm.start())
+            Function.hass.async_create_task(start_dm(dm))
         self.dms_delay_start = set()
 
     def stop(self) -> None:
